@@ -120,6 +120,9 @@ def _run(fn, name):
     except Exception as e:
         if type(e).__name__ == 'ArpackNoConvergence':
             return 'refused', 'solver(no convergence)'
+        if type(e).__name__ == 'ArpackError':
+            # ARPACK gives up on tiny / degenerate pencils (e.g. -9999 "could not build an Arnoldi factorization" with 1x1x1 series)
+            return 'refused', 'solver(ARPACK error)'
         if isinstance(e, RuntimeError) and 'singular' in str(e).lower():
             return 'refused', 'solver-precondition(singular pencil)'
         if type(e).__name__ == 'LinAlgError' and 'not positive definite' in str(e):
@@ -717,13 +720,189 @@ def _cc_strategy(draw, tier='quick'):
     case['nt'] = draw(st.sampled_from([16, 21]))
     nl = case['model'] in NL_MODELS
     names = ['calc_k0', 'calc_fext', 'lb', 'static', 'uvw', 'strain', 'stress'] + (['calc_fint', 'calc_kT'] if nl else [])
+    case['ops'] = [draw(_cc_op(names)) for _ in range(draw(st.integers(1, 6)))]
+    return case
+
+
+@st.composite
+def _cc_op(draw, names):
+    o = draw(st.sampled_from(names))
+    return {'op': o, 'amps': [round(draw(gen.fl(-1., 1.)), 3) for _ in range(5)], 'inc': round(draw(gen.fl(0.1, 1.)), 2),
+            'pts': draw(_points(6)), 'cores': draw(st.integers(1, 8)), 'method': draw(st.sampled_from(['trapz2d', 'simps2d'])),
+            'scale': draw(st.sampled_from([1e-3, 1e-1])), 'full': draw(st.booleans()),
+            'finc': draw(st.sampled_from([1., 1., 0.5, 0.2]))}
+
+
+# =============================================================== ConeCyl re-defined between calls
+CC_DERIVED = ('set_geom', 'set_alphadeg', 'set_angle', 'set_thickness', 'set_material', 'set_Fc')   # enter data that ConeCyl fills in once
+CC_STIFF = CC_DERIVED[:-1] + ('set_edge',)                                                           # enter the cached linear matrices
+CC_FREE = ('set_mn', 'set_force', 'set_thetaT')
+R20A = 'R20a-conecyl-stale-linear-matrices'
+R20B = 'R20b-conecyl-derived-data-filled-in-once'
+
+
+def apply_cc_set(cc, case, op):
+    o, v = op['op'], op['value']
+    iso = 'iso_' in case['model']
+    if o == 'set_geom':
+        k = [q for q in ('r2', 'L', 'H', 'r1') if case['geom'].get(q) is not None][op['which'] % 2]
+        case['geom'][k] = round(case['geom0'][k] * (1. + 0.2 * v), 6)
+        setattr(cc, k, case['geom'][k])
+    elif o == 'set_alphadeg':
+        case['alphadeg'] = round(5. + 30. * abs(v), 3)
+        cc.alphadeg = case['alphadeg']
+    elif o == 'set_angle':
+        k = op['ply'] % len(case['stack'])
+        case['stack'][k] = round(case['stack'][k] + 35. * v + 5., 3)
+        if op['in_place']:
+            cc.stack[k] = case['stack'][k]
+        else:
+            cc.stack = list(case['stack'])
+    elif o == 'set_thickness':
+        if iso:
+            case['h'] = round(case['h'] * (1.6 + 0.5 * v), 6)
+            cc.h = case['h']
+        else:
+            case['plyt'] = round(case['plyt'] * (1.6 + 0.5 * v), 6)
+            cc.plyt = case['plyt']
+    elif o == 'set_material':
+        if iso:
+            case['E11'] = round(case['E11'] * (1.7 + 0.6 * v), 3)
+            cc.E11 = case['E11']
+        else:
+            case['laminaprop'] = [round(case['laminaprop'][0] * (1.7 + 0.6 * v), 3)] + list(case['laminaprop'][1:])
+            cc.laminaprop = tuple(case['laminaprop'])
+    elif o == 'set_edge':
+        case[op['edge']] = round(10. ** (4. + 3. * v), 3)
+        setattr(cc, op['edge'], case[op['edge']])
+    elif o == 'set_mn':
+        case['m1'], case['m2'], case['n2'] = op['m1'], op['m2'], op['n2']
+        cc.m1, cc.m2, cc.n2 = op['m1'], op['m2'], op['n2']
+    elif o == 'set_Fc':
+        case['Fc'] = round(2000. * (1.5 + v), 2)
+        cc.Fc = case['Fc']
+    elif o == 'set_force':
+        f = case['forces'][0]
+        f['fz'] = round(20. * (1.3 + v), 3)
+        lst = cc.forces_inc if f['inc'] else cc.forces
+        lst[0][4] = f['fz']
+    elif o == 'set_thetaT':
+        case['thetaTdeg'] = round(0.03 * v, 5)
+        cc.thetaTdeg = case['thetaTdeg']
+    else:
+        raise ValueError(o)
+
+
+def check_cc_redefine(case, ctx):
+    """one ConeCyl object re-defined through its public attributes between evaluations; every evaluation must equal the first call on a
+    fresh shell given the current definition.  Two listed findings are recognised by their precondition, everything else is a violation:
+    R20a - the linear matrices (k0, k0uk, k0uu, kG0) computed for an earlier definition are re-used, and while they exist calc_kT /
+           calc_fint do not even re-derive series orders and prescribed amplitudes (precondition: an attribute other than a point force
+           changed while matrices were cached, and the operation is one of calc_k0, static, calc_kT, calc_fint, calc_fext);
+    R20b - data derived from the definition are filled in once and then shadow later changes: the missing member of (r1, r2, H, L), the
+           per-ply lists, the laminate, the axial line load Nxxtop derived from Fc (precondition: geometry, laminate or Fc changed after
+           the object had been used at least once)."""
+    kind = 'ConeCyl:' + case['model']
+    name = 'redefined[%s]' % kind
+    cur = copy.deepcopy(case)
+    with package(name + '.build'):
+        shared = build_cc(cur)
+    hist = []
+    stale_matrices = derived_dirty = used = False
+    nset = evals_after = 0
+    reuse_ops = ('calc_k0', 'static', 'calc_kT', 'calc_fint', 'calc_fext')
+    ctx.label('kind:' + kind)
+    for step, op in enumerate(case['ops']):
+        ctx.label('op:' + op['op'])
+        if op['op'] in CC_STIFF + CC_DERIVED + CC_FREE:
+            with package(name + '.' + op['op']):
+                apply_cc_set(shared, cur, op)
+            nset += 1
+            if op['op'] != 'set_force' and shared.k0 is not None:
+                # also series orders and prescribed amplitudes: while matrices exist calc_kT / calc_fint skip _rebuild() altogether
+                stale_matrices = True
+            if op['op'] in CC_DERIVED and used:
+                derived_dirty = True
+            hist.append(op['op'])
+            continue
+        if nset:
+            evals_after += 1
+        tol = 1e-9 if op['op'] in ('lb', 'static') else 0.
+        with package(name + '.build'):
+            twin = build_cc(copy.deepcopy(cur))
+        args_t = copy.deepcopy(op)
+        st_t, res_t = _run(lambda: exec_cc(twin, args_t), name)
+        if st_t == 'error':
+            raise Violation('%s.first-call[%s]' % (name, op['op']), 'on a freshly defined object: %s' % res_t)
+        args_s = copy.deepcopy(op)
+        st_s, res_s = _run(lambda: exec_cc(shared, args_s), name)
+        used = True
+        bad = None
+        if st_s == 'error':
+            bad = ('after-history', 'step %d (after %s): %s' % (step, hist, res_s))
+        elif st_s != st_t:
+            bad = ('outcome', 'step %d after %s: %s on the re-defined object but %s on a fresh one' % (step, hist, st_s, st_t))
+        elif st_s == 'ok':
+            ok, why = _same(res_s, res_t, tol)
+            ctx.subchecks += 1
+            if not ok:
+                bad = ('differs', 'step %d after %s: %s' % (step, hist, why))
+        if bad:
+            bucket = '%s.%s[%s]' % (name, bad[0], op['op'])
+            if derived_dirty:
+                ctx.known(R20B, bucket, bad[1])
+                ctx.label('R20b-observed')
+                ctx.nontrivial = True
+                return      # nothing behind this point can be compared: the object no longer represents the current definition
+            if stale_matrices and op['op'] in reuse_ops and bad[0] in ('differs', 'after-history'):
+                ctx.known(R20A, bucket, bad[1])
+                ctx.label('R20a-observed')
+                # excluded by construction from here on: the stale matrices are dropped so that the search continues behind the finding
+                shared._clear_matrices()
+                stale_matrices = False
+            else:
+                raise Violation(bucket, bad[1])
+        if op['op'] == 'lb' or shared.k0 is None:
+            stale_matrices = False       # lb recomputes the linear matrices unconditionally; a size change clears them
+        if '_c' in args_s and not np.array_equal(args_s['_c'], args_s['_c0']):
+            raise Violation('%s.input-mutated[%s]' % (name, op['op']), 'the amplitude vector supplied by the caller was modified')
+        hist.append(op['op'])
+    ctx.nontrivial = nset >= 1 and evals_after >= 1
+
+
+@st.composite
+def _cc_set_op(draw, case):
+    iso = 'iso_' in case['model']
+    names = ['set_geom', 'set_thickness', 'set_material', 'set_edge', 'set_mn', 'set_Fc', 'set_force', 'set_thetaT']
+    if case['alphadeg']:
+        names.append('set_alphadeg')
+    if not iso:
+        names.append('set_angle')
+    if case.get('free_only'):
+        # two thirds of the cases: only re-definitions that no listed finding covers (strict throughout), plus the edge stiffnesses
+        names = ['set_edge', 'set_mn', 'set_force', 'set_thetaT']
+    o = draw(st.sampled_from(names))
+    op = {'op': o, 'value': round(draw(gen.fl(-1., 1.)), 3), 'in_place': draw(st.booleans()), 'ply': draw(st.integers(0, 5)),
+          'which': draw(st.integers(0, 1))}
+    if o == 'set_mn':
+        op['m1'], op['m2'], op['n2'] = draw(st.integers(1, 3)), draw(st.integers(1, 2)), draw(st.integers(1, 2))
+    if o == 'set_edge':
+        op['edge'] = draw(st.sampled_from(['kuBot', 'kuTop', 'kvBot', 'kvTop', 'kphixBot', 'kphixTop']))
+    return op
+
+
+@st.composite
+def _cc_redefine_strategy(draw, tier='quick'):
+    case = draw(_cc_strategy(tier))
+    case['geom0'] = dict(case['geom'])
+    case['free_only'] = draw(st.integers(0, 2)) > 0
+    nl = case['model'] in NL_MODELS
+    names = ['calc_k0', 'calc_fext', 'lb', 'static', 'uvw', 'strain', 'stress'] + (['calc_fint', 'calc_kT'] if nl else [])
     ops = []
-    for _ in range(draw(st.integers(1, 6))):
-        o = draw(st.sampled_from(names))
-        ops.append({'op': o, 'amps': [round(draw(gen.fl(-1., 1.)), 3) for _ in range(5)], 'inc': round(draw(gen.fl(0.1, 1.)), 2),
-                    'pts': draw(_points(6)), 'cores': draw(st.integers(1, 8)), 'method': draw(st.sampled_from(['trapz2d', 'simps2d'])),
-                    'scale': draw(st.sampled_from([1e-3, 1e-1])), 'full': draw(st.booleans()),
-                    'finc': draw(st.sampled_from([1., 1., 0.5, 0.2]))})
+    for _ in range(draw(st.integers(2, 6))):
+        ops.append(draw(_cc_set_op(case)) if draw(st.integers(0, 2)) == 0 else draw(_cc_op(names)))
+    ops.insert(draw(st.integers(0, len(ops) - 1)), draw(_cc_set_op(case)))
+    ops.append(draw(_cc_op(names)))
     case['ops'] = ops
     return case
 
@@ -742,6 +921,11 @@ SUBS = [
         rule='one Panel object re-defined between evaluations through its public attributes (a, b, r, alphadeg, m/n, a ply angle or '
              'thickness - list re-assigned or edited in place -, offset, mu, loads, one edge flag, material, a point force, aerodynamic '
              'coefficients), 3..9 steps: each evaluation equals the first call on a fresh object given the current definition; '
+             'non-trivial = at least one evaluation after a re-definition', shards_quick=16),
+    Sub('conecyl_redefine', _cc_redefine_strategy, check_cc_redefine, quick=96, thorough=1500,
+        rule='one ConeCyl object re-defined between evaluations (geometry, angle, ply angle / thickness, material, edge stiffness, series '
+             'orders, axial load, a point force, prescribed rotation), 4..8 steps: each evaluation equals the first call on a fresh shell '
+             'given the current definition, except for listed finding R20a (stale cached linear matrices, recognised by its precondition); '
              'non-trivial = at least one evaluation after a re-definition', shards_quick=16),
     Sub('conecyl', _cc_strategy, check_cc, quick=64, thorough=1200,
         rule='sequences over ConeCyl calls (k0,fext,lb,static,fields, fint/kT with drawn integration thread counts and rules) for 12 models',
